@@ -389,6 +389,15 @@ struct Variable {
         }
     }
 
+    // An index that does not fit an int can never be inside a dimension: reject it instead of
+    // truncating it (m[4294967297][1] used to address m[1][1]).
+    static int index_to_int(int64_t index) {
+        if (index < INT32_MIN || index > INT32_MAX) {
+            throw std::runtime_error("Array index out of bounds");
+        }
+        return static_cast<int>(index);
+    }
+
     // 多次元配列のフラットインデックス計算
     int calculate_flat_index(const std::vector<int> &indices) const {
         debug_msg(DebugMsgId::FLAT_INDEX_CALCULATED,
